@@ -70,7 +70,7 @@ pub fn yaml_of(def: &Value) -> String {
             y.push_str(" {}\n");
         }
     }
-    y.push_str("links:\n  L1: {latency: 0.001, jitter: 0.0, bitrate: 1000}\n  L2: {latency: 0.005, jitter: 0.0, bitrate: 0}\n");
+    y.push_str("links:\n  L1: {latency: 0.001, jitter: 0.0, bitrate: 1000}\n  L2: {latency: 0.005, jitter: 0.0, bitrate: 0}\n  L3: {bitrate: 500}\n");
     y
 }
 
@@ -112,6 +112,7 @@ fn link_params(l: &str) -> Option<(u64, u64, usize)> {
     match l {
         "L1" => Some((1_000_000, 0, 1000)),
         "L2" => Some((5_000_000, 0, 0)),
+        "L3" => Some((0, 0, 500)),
         _ => None,
     }
 }
